@@ -116,7 +116,7 @@ type real struct {
 	subs        map[string]*realSub
 	subOrder    []string
 	pids        map[string]*pidInfo // PullID subscriptions, by name
-	arena                           // how option slices are handed to the calls (options_arena.go)
+	arena                           // how option slices are handed to the calls (common_arena.go)
 }
 
 // pidInfo: a PullID subscription is observed together with a hidden plain Pull with the same options
